@@ -285,3 +285,81 @@ def N5(inp, via):
     if via == 'send':
         cl['send_result_truthful'] = (res is True) == up
     return Res(cl, nontrivial=silent, obs=lambda: dict(via=via, up=up, res=show(res), disc=len(ev.disc) - nd0))
+
+
+@obligation('N6', props=('C14',), quick=[dict()], stubs=_STUBS,
+            bounds='accepting side; a member whose connection went stale dials again and completes the handshake; the old connection then dies by error event, read timeout or explicit close (case split); symbolic clock')
+def N6(inp):
+    """stale connection replaced by a new incoming one: after the member has re-dialled and identified itself, the death of the
+    old connection does not report the member disconnected, the member stays reachable (send() true, messages delivered with it as
+    source) and exactly one connection is registered for it."""
+    now = inp.real('now', 0)
+    me, m1 = '10.0.0.1:5000', '10.0.0.2:5000'
+    tr, fso, sm, clk, ev = _transport(inp, me, [m1], now)
+    node = TCPNode(m1)
+    old = _incoming(inp, fso, tr, 'old')
+    _deliver(old, m1)
+    new = _incoming(inp, fso, tr, 'new')
+    _, exc = _deliver(new, m1)
+    nd0, nc0 = len(ev.disc), len(ev.conn)
+    how = inp.choice('old_dies_by', 3)
+    if how == 0:
+        _, exc2 = guard(getattr(old, '_TcpConnection__processConnection'), 7, POLL_EVENT_TYPE.ERROR)
+    elif how == 1:
+        setattr(old, '_TcpConnection__lastReadTime', now - 10000)
+        _, exc2 = guard(getattr(old, '_TcpConnection__processConnection'), 7, POLL_EVENT_TYPE.READ)
+    else:
+        _, exc2 = guard(old.disconnect)
+    CODEC[0].lengths[0] = inp.int('L0', 1, 1000)
+    res, exc3 = guard(tr.send, node, 0)
+    msg = {'type': 'next_node_idx', 'next_node_idx': 3, 'reset': False, 'success': True}
+    n0 = len(ev.msgs)
+    _, exc4 = _deliver(new, msg)
+    tc.socket = realsocket
+    cl = {'no_exception': exc is None and exc2 is None and exc3 is None and exc4 is None}
+    cl['member_not_reported_disconnected'] = len(ev.disc) == nd0
+    cl['current_connection_registered'] = tr._connections.get(node) is new and new.state == CONNECTION_STATE.CONNECTED
+    cl['old_connection_closed'] = old.state == CONNECTION_STATE.DISCONNECTED
+    cl['send_still_works'] = res is True
+    cl['messages_attributed_to_the_member'] = ev.msgs[n0:] == [(node, msg)]
+    return Res(cl, nontrivial=True, obs=lambda: dict(how=how, disc=len(ev.disc) - nd0, res=show(res)))
+
+
+@obligation('N7', props=('C14',), quick=[dict()], stubs=_STUBS + ('socket.connect() outcome: immediate success, EINPROGRESS, or a synchronous error (case split)',),
+            bounds='dialling side; outcome of the non-blocking connect() call from 4 kinds; then a tick at a symbolic later instant')
+def N7(inp):
+    """failed dial: a connect() that fails synchronously leaves the connection object disconnected (not half-open), nothing
+    subscribed, and the peer is re-dialled at the first tick at least connectionRetryTime later; a connect in progress is not
+    re-dialled."""
+    now = inp.real('now', 0)
+    tr, fso, sm, clk, ev = _transport(inp, '10.0.0.9:5000', ['10.0.0.2:5000'], now, connectionRetryTime=5.0)
+    node = TCPNode('10.0.0.2:5000')
+    outcome = ('ok', 'inprogress', 'unreachable', 'refused_sync')[inp.choice('outcome', 4)]
+    import errno as _errno
+
+    def connect_(addr):
+        if outcome == 'ok':
+            return
+        e = realsocket.error()
+        e.errno = {'inprogress': _errno.EINPROGRESS, 'unreachable': _errno.ENETUNREACH, 'refused_sync': _errno.ECONNREFUSED}[outcome]
+        raise e
+    T.SymSocket.connect = lambda self, addr: connect_(addr)
+    try:
+        _, exc = guard(tr._onTick)
+        conn = tr._connections[node]
+        n1 = len(sm.made)
+        failed = outcome in ('unreachable', 'refused_sync')
+        state1 = conn.state
+        later = inp.real('later', 0)
+        clk.now = now + later
+        _, exc2 = guard(tr._onTick)
+        redialled = len(sm.made) > n1
+    finally:
+        T.SymSocket.connect = lambda self, addr: None
+        tc.socket = realsocket
+    cl = {'no_exception': exc is None and exc2 is None}
+    cl['dialled_once_at_first_tick'] = n1 == 1
+    cl['state_after_connect'] = (state1 == CONNECTION_STATE.DISCONNECTED) if failed else (state1 == CONNECTION_STATE.CONNECTING)
+    cl['subscribed_iff_in_progress'] = (7 in fso._poller.subs) == (not failed)
+    cl['redial_iff_failed_and_retry_time_elapsed'] = Iff(redialled, And(failed, later >= 5.0))
+    return Res(cl, nontrivial=failed, obs=lambda: dict(outcome=outcome, state=state1, redialled=redialled))
